@@ -20,22 +20,65 @@ Theorem C36_pace : forall S (P : spawner S) fuel t0 s evs tc ties pre t1 f1 i1 m
   f1 + W <= t2 /\ t1 + W <= t2.
 Proof. exact task_pace. Qed.
 
-(* while incomplete, keeps attempting at that pace.  PARTIAL as a statement about whole runs: it is
-   proved for spawners that stay incomplete for the whole run (is_complete false in every state).
-   For those, whatever the events: the first attempt is made at the start, every further one
-   exactly W after the previous one returned; everything else the loop does in between (handling
-   events, noticing the closed channel) happens no later than that deadline, a timeout is followed
-   at once by the attempt, and the log ends only with the channel closed, try_spawn failing, or
-   the cut-off of the model ([periodic], Model/Spawner.v).
-   Missing: the same run-level statement for a spawner that alternates between complete and
-   incomplete (next attempt at max(instant it is seen incomplete, previous return + W)); for such
-   spawners only the three per-iteration theorems below are proved (they are what the run-level
-   proof is made of), and the correspondence exercises alternating spawners on every run. *)
-Theorem C36_keeps_trying_partial : forall S (P : spawner S) fuel t0 s evs tc ties,
+(* while incomplete, keeps attempting at that pace: for EVERY spawner (also one that alternates
+   between complete and incomplete through try_spawn and the handlers), every schedule, every tie
+   resolution, every fuel, the whole log satisfies [keeps] (Model/Spawner.v).  [keeps] follows the
+   log together with the spawner's state (try_spawn / the handlers applied as the log says), the
+   instant l at which the previous attempt RETURNED and the instant cur of the previous entry, and
+   demands at every point of the run (start of the task, after every attempt, after every handled
+   event, after every timeout):
+     - spawner incomplete and an attempt due (no attempt made yet, or l + W <= cur): the next
+       entry is the attempt, at cur itself;
+     - an attempt not due (cur < l + W): the next entry (an event handled, the channel found closed,
+       the timeout) is at an instant <= l + W, a timeout exactly at l + W, and it is not an attempt
+       (so when that entry leaves the spawner incomplete at l + W the first case applies: the
+       attempt starts at l + W; events arriving before l + W are handled in between);
+     - an attempt is made only while the spawner is incomplete and due, it returns no earlier than
+       it starts, and its result is the one try_spawn gave;
+     - the log never simply stops: it ends with Closed (channel closed), with an attempt that
+       returned Err, or with the cut-off of the model.
+   Hence the loop never stops trying while the spawner is incomplete, until the channel closes or
+   try_spawn fails. *)
+Theorem C36_keeps_trying : forall S (P : spawner S) fuel t0 s evs tc ties,
+  keeps P s None t0 (task P fuel t0 s evs tc ties).
+Proof. exact task_keeps. Qed.
+
+(* the same, read off at an arbitrary point of a run: if after the prefix [pre] (ghost values by
+   [replay]: spawner state s', previous return lastf, instant cur) the spawner is incomplete, the
+   next entry x is the attempt at cur when due, and otherwise something at an instant <= l + W
+   (a timeout: exactly l + W); the log does not end there *)
+Theorem C36_keeps_trying_next : forall S (P : spawner S) fuel t0 s evs tc ties pre x rest s' lastf cur,
+  task P fuel t0 s evs tc ties = pre ++ x :: rest ->
+  replay P s None t0 pre = (s', lastf, cur) -> sp_complete P s' = false ->
+  match x with
+  | Try t _ _ => t = cur /\ due lastf cur = true
+  | Handled t _ | Closed t => exists l, lastf = Some l /\ cur < l + W /\ cur <= t <= l + W
+  | IdleAt t => exists l, lastf = Some l /\ cur < l + W /\ t = l + W
+  | OutOfFuel => rest = []
+  end.
+Proof. exact task_keeps_next. Qed.
+
+(* the instant of the next attempt: if from some point of the run (after [pre]) up to the next
+   attempt the spawner is incomplete at every loop top ([waiting]: before and after every entry of
+   [mid], which contains no attempt), that attempt starts exactly at
+   [deadline] = max(that point, previous return + W) (= that point if no attempt was made yet),
+   and nothing the loop does in between is later *)
+Theorem C36_next_attempt_instant : forall S (P : spawner S) fuel t0 s evs tc ties pre mid t f i post s' lastf cur,
+  task P fuel t0 s evs tc ties = pre ++ mid ++ Try t f i :: post ->
+  replay P s None t0 pre = (s', lastf, cur) -> waiting P s' mid ->
+  t = deadline lastf cur /\ Forall (not_after t) mid.
+Proof. exact task_next_attempt. Qed.
+
+(* special case kept from the first version: a spawner that is never complete is tried exactly
+   periodically: at the start, then exactly W after the previous attempt returned; everything else
+   the loop does in between happens no later than that deadline, a timeout is followed at once by
+   the attempt, and the log ends only with the channel closed, try_spawn failing, or the cut-off
+   of the model ([periodic], Model/Spawner.v) *)
+Theorem C36_keeps_trying_never_complete : forall S (P : spawner S) fuel t0 s evs tc ties,
   (forall x, sp_complete P x = false) -> periodic t0 None (task P fuel t0 s evs tc ties).
 Proof. exact task_periodic. Qed.
 
-(* the two facts behind it, for every spawner and every state at the top of the loop: an
+(* the per-iteration facts, for every spawner and every state at the top of the loop: an
    incomplete spawner is tried at once if a ticket is held or W has passed since the last attempt
    returned; otherwise no attempt is made *)
 Theorem C36_attempt_when_due : forall S (P : spawner S) (st : lstate S),
@@ -88,6 +131,24 @@ Example C36_nonvacuous :
      Handled 5000 (EvRemoved RNetworkIssue); Try 5000 5000 (Some [1]); IdleAt 6000; Closed 7000].
 Proof. vm_compute. reflexivity. Qed.
 
+(* non-vacuity of C36_keeps_trying_next / C36_next_attempt_instant on the run above (an alternating
+   spawner): after the prefix ending with the removal at 5000 the mock is incomplete, an attempt is
+   due (2400 + W <= 5000) and is the next entry; after the first attempt (returned at 200) the
+   three events are handled before the deadline 1200 and the attempt starts exactly there *)
+Example C36_nonvacuous_alternating :
+  let pre := [Try 0 200 (Some [0]); Handled 250 EvRegistered; Handled 300 EvIdle; Handled 900 EvRegistered;
+              IdleAt 1200; Try 1200 1400 (Some [0]); IdleAt 2400; Try 2400 2400 (Some [1]); IdleAt 3400;
+              Handled 5000 (EvRemoved RNetworkIssue)] in
+  let s0 := mkmock false [(200, 0); (200, 0); (0, 1)] in
+  replay Mock s0 None 0 pre = (mkmock false [], Some 2400, 5000)
+  /\ sp_complete Mock (mkmock false []) = false
+  /\ sp_complete Mock (fst (fst (replay Mock s0 None 0 (firstn 9 pre)))) = true
+  /\ replay Mock s0 None 0 (firstn 1 pre) = (mkmock false [(200, 0); (0, 1)], Some 200, 200)
+  /\ waiting Mock (mkmock false [(200, 0); (0, 1)])
+       [Handled 250 EvRegistered; Handled 300 EvIdle; Handled 900 EvRegistered; IdleAt 1200]
+  /\ deadline (Some 200) 200 = 1200 /\ deadline (Some 2400) 5000 = 5000.
+Proof. vm_compute. repeat split; reflexivity. Qed.
+
 (* standard spawner with the test resolver [1;2;3]: Demobilized does not respawn, NetworkIssue
    respawns on the cached address, Unreachable resolves again *)
 Example C36_nonvacuous_std :
@@ -107,7 +168,10 @@ Example C36_nonvacuous_tie :
 Proof. vm_compute. split; reflexivity. Qed.
 
 Print Assumptions C36_pace.
-Print Assumptions C36_keeps_trying_partial.
+Print Assumptions C36_keeps_trying.
+Print Assumptions C36_keeps_trying_next.
+Print Assumptions C36_next_attempt_instant.
+Print Assumptions C36_keeps_trying_never_complete.
 Print Assumptions C36_attempt_when_due.
 Print Assumptions C36_no_attempt_otherwise.
 Print Assumptions C36_wait_bounded.
